@@ -201,11 +201,11 @@ func checkC01() fw.Check {
 		MinNontrivial: 100,
 		Assumptions:   []string{"wirefmt encoder and refmatch reference matcher are trusted", "Linux build", "Paris-mode sequence numbers are drawn by math/rand inside the repository and observed, not controlled"},
 		Gen: func(tier string, seed int64) []fw.Case {
-			wins, bases := windowsQuick, basesQuick
+			wins, bases := windowsThorough, basesThorough[:3]
 			seeds := 1
 			if tier == "thorough" {
 				wins, bases = windowsThorough, basesThorough
-				seeds = 3
+				seeds = 8
 			}
 			var cases []fw.Case
 			for _, v := range refmatch.Variants {
